@@ -18,7 +18,7 @@ import (
 type RunSpec struct {
 	Harness   string         `json:"harness"`
 	Float     string         `json:"float"`    // real | fp
-	MapOrder  string         `json:"maporder"` // all | insertion
+	MapOrder  string         `json:"maporder"` // all | repo | insertion
 	Bounds    map[string]int `json:"bounds"`
 	Tiers     []string       `json:"tiers"`
 	Asserts   []string       `json:"asserts"` // assertion tags (prefix match) owned by this property; empty = all
@@ -170,7 +170,7 @@ func cmdCheck(args []string) int {
 		}
 		FloatReal = r.Float != "fp"
 		cfg := &RunConfig{Harness: r.Harness, Fn: fn, MaxSteps: 5_000_000, MaxDepth: 400, MaxPaths: 3_000_000,
-			MapOrderAll: r.MapOrder != "insertion", Twin: true, Bounds: r.Bounds, BoundsSeen: map[string]int{},
+			MapOrderAll: r.MapOrder != "insertion", MapOrderRepoOnly: r.MapOrder == "repo", Twin: true, Bounds: r.Bounds, BoundsSeen: map[string]int{},
 			TimeoutMs: 10000, Workers: *j, PanicOK: r.PanicOK, DepthIsViolation: r.DepthViol, ConcreteFmt: r.ConcFmt, TrackOrder: true, RenderMax: r.RenderMax}
 		if cfg.Bounds == nil {
 			cfg.Bounds = map[string]int{}
